@@ -14,6 +14,7 @@ import (
 	"encoding/json"
 	"fmt"
 	"math/big"
+	"os"
 
 	"github.com/nspcc-dev/neo-go/pkg/smartcontract/scparser"
 	"github.com/nspcc-dev/neo-go/pkg/util"
@@ -93,7 +94,7 @@ func c12Exec(co *caseOut, kind string, in c12Input) (c12Obs, bool) {
 		}
 	}
 	v := c13NewVM(in.Base, in.Limit)
-	var aband []*vm.Stack
+	var aband [][]stackitem.Item
 	check := func(where string) {
 		if bad != "" {
 			return
@@ -104,6 +105,9 @@ func c12Exec(co *caseOut, kind string, in c12Input) (c12Obs, bool) {
 			wa = c12DoWalk(v, aband...)
 		}
 		refs := v.VerifRefs()
+		if os.Getenv("C12_DEBUG") != "" {
+			fmt.Fprintf(os.Stderr, "%s refs=%d walk=%d walk+abandoned=%d depth=%d estack=%d\n", where, refs, w.total, wa.total, len(v.Istack()), v.Estack().Len())
+		}
 		obs.EverCyc = obs.EverCyc || w.cyclic
 		obs.MaxDepth = max(obs.MaxDepth, len(v.Istack()))
 		obs.MaxRefs = max(obs.MaxRefs, refs)
@@ -131,20 +135,31 @@ func c12Exec(co *caseOut, kind string, in c12Input) (c12Obs, bool) {
 	if multi {
 		v.SyscallHandler = c12Loader(in.Scripts)
 	}
-	var prevStacks map[*vm.Stack]bool
-	_ = prevStacks
+	var prevStacks map[*vm.Stack][]stackitem.Item
 	prevOp := opcode.NOP
 	v.SetOnExecHook(func(_ util.Uint160, off int, op opcode.Opcode) {
 		if multi { // did the previous instruction drop a script context by an exception while its stack still held items?
-			cur := map[*vm.Stack]bool{v.Estack(): true}
+			// (the content is taken from the snapshot made before that instruction: a sub-stack shares its backing array
+			// with the stack below, which overwrites it as soon as the handler pushes)
+			cur := map[*vm.Stack][]stackitem.Item{}
+			snap := func(st *vm.Stack) {
+				if _, ok := cur[st]; !ok {
+					its := make([]stackitem.Item, st.Len())
+					for i := range its {
+						its[i] = st.Peek(i).Item() // top first
+					}
+					cur[st] = its
+				}
+			}
+			snap(v.Estack())
 			for _, c := range v.Istack() {
-				cur[c.Estack()] = true
+				snap(c.Estack())
 			}
 			if prevOp != opcode.RET {
-				for st := range prevStacks {
-					if !cur[st] && st.Len() > 0 {
+				for st, its := range prevStacks {
+					if _, ok := cur[st]; !ok && st.Len() > 0 && st.Len() <= len(its) {
 						obs.Abandoned = true
-						aband = append(aband, st)
+						aband = append(aband, its[len(its)-st.Len():])
 					}
 				}
 			}
@@ -829,7 +844,7 @@ func runC12(args []string) error {
 	for _, in := range c12MultiBoundary() {
 		c12Run(co, "multi", "unwind", in)
 	}
-	for i := 0; i < n/2; i++ {
+	for i := 0; i < n/3; i++ {
 		c12Run(co, "multi", "gen", c12GenMulti(r))
 	}
 	// arbitrary byte strings
